@@ -92,6 +92,12 @@ pub fn c03(ctx: &mut Ctx) {
     if std::env::var("ENRMON_DEBUG").is_ok() { eprintln!("c03: hist done {:?}", ctx.start.elapsed()); }
     ctx.phase(1.0);
     // key import with arbitrary bytes
+    #[cfg(feature = "ed")]
+    c03_key_import(ctx, q);
+}
+
+#[cfg(feature = "ed")]
+fn c03_key_import(ctx: &mut Ctx, q: bool) {
     let n = if cfg!(miri) { 0 } else { ctx.vol(if q { 3000 } else { 100_000 }) };
     for i in 0..n {
         if !ctx.mine(i) {
@@ -390,8 +396,8 @@ fn decode_seq_kt(kt: KT, buf: &[u8], n: usize) -> Result<Vec<(Vec<u8>, usize)>, 
         KT::Libsecp => decode_seq::<secp256k1::SecretKey>(buf, n),
         #[cfg(not(feature = "libsecp"))]
         KT::Libsecp => Err("not in build".into()),
-        KT::Ed => decode_seq::<ed25519_dalek::SigningKey>(buf, n),
-        KT::Comb => decode_seq::<enr::CombinedKey>(buf, n),
+        KT::Ed => decode_seq::<<EdK as KeyKind>::K>(buf, n),
+        KT::Comb => decode_seq::<<CombK as KeyKind>::K>(buf, n),
         KT::Toy => decode_seq::<ToyKey>(buf, n),
     }
 }
@@ -449,8 +455,10 @@ pub fn c13(ctx: &mut Ctx) {
         c13_encoded_lists::<K256K>(ctx, Scheme::Secp);
         #[cfg(feature = "libsecp")]
         c13_encoded_lists::<LibsecpK>(ctx, Scheme::Secp);
-        c13_encoded_lists::<EdK>(ctx, Scheme::Ed);
-        c13_encoded_lists::<CombK>(ctx, Scheme::Ed);
+        if cfg!(feature = "ed") {
+            c13_encoded_lists::<EdK>(ctx, Scheme::Ed);
+            c13_encoded_lists::<CombK>(ctx, Scheme::Ed);
+        }
         c13_encoded_lists::<ToyK>(ctx, Scheme::Toy);
     }
     let pools = crate::props::Pools::new();
@@ -869,9 +877,11 @@ pub fn c14(ctx: &mut Ctx) {
     if !q {
         #[cfg(feature = "libsecp")]
         ports_kind::<LibsecpK>(ctx, Scheme::Secp, &ports);
-        ports_kind::<EdK>(ctx, Scheme::Ed, &ports);
-        ports_kind::<CombK>(ctx, Scheme::Secp, &ports);
-        ports_kind::<CombK>(ctx, Scheme::Ed, &ports);
+        if cfg!(feature = "ed") {
+            ports_kind::<EdK>(ctx, Scheme::Ed, &ports);
+            ports_kind::<CombK>(ctx, Scheme::Secp, &ports);
+            ports_kind::<CombK>(ctx, Scheme::Ed, &ports);
+        }
     }
     // all 64 presence combinations of the six address/port keys, RefSig-signed, every reading key type
     let mut n = 0u64;
@@ -956,8 +966,10 @@ pub fn c14(ctx: &mut Ctx) {
                 go!(K256K);
                 #[cfg(feature = "libsecp")]
                 go!(LibsecpK);
-                go!(EdK);
-                go!(CombK);
+                if cfg!(feature = "ed") {
+                    go!(EdK);
+                    go!(CombK);
+                }
                 go!(ToyK);
             }
         }
@@ -1421,6 +1433,15 @@ pub fn c16(ctx: &mut Ctx) {
 // =============================================================================================
 // C17 — CombinedKey secret import/export
 // =============================================================================================
+#[cfg(not(feature = "ed"))]
+pub fn c17(ctx: &mut Ctx) {
+    ctx.notes.push("CombinedKey does not exist in the default-feature build".into());
+}
+
+#[cfg(not(feature = "ed"))]
+pub fn replay_key_import(_ctx: &mut Ctx, _which: &str, _bytes: &[u8]) {}
+
+#[cfg(feature = "ed")]
 pub fn c17(ctx: &mut Ctx) {
     let q = ctx.quick();
     let n = ctx.vol(if q { 6000 } else { 400_000 });
@@ -1632,6 +1653,7 @@ pub fn c17(ctx: &mut Ctx) {
     }
 }
 
+#[cfg(feature = "ed")]
 fn sign_and_check(ctx: &mut Ctx, k: &enr::CombinedKey, scheme: Scheme, want_pub: &[u8], replay: &dyn Fn() -> serde_json::Value) {
     let e = guard(|| apply_build::<enr::CombinedKey>(&[BEntry::Udp4(30303), BEntry::Add(b"x".to_vec(), Val::B(vec![1, 2, 3]))], k));
     ctx.count("evaluations");
@@ -1674,6 +1696,7 @@ pub fn replay_stream(ctx: &mut Ctx, item: &[u8], suffix: &[u8]) {
 }
 
 
+#[cfg(feature = "ed")]
 pub fn replay_key_import(ctx: &mut Ctx, which: &str, bytes: &[u8]) {
     let replay = || json!({"kind": "key-import", "which": which, "hex": hex(bytes)});
     let mut buf = bytes.to_vec();
